@@ -270,11 +270,34 @@ def rule_M6(ctx: Ctx) -> None:
     ctx.judge(f, have if near else None, {"loop_test": X.U(lp.test), "bound_atoms": near},
               "the loop stops as soon as len(visited_cells) reaches n_accessible_cells (one cell is added per iteration)",
               "more (or fewer) cells than requested become accessible", node=lp)
-    na = X.assignments_to(f.node, "n_accessible_cells")
-    forms = sorted(X.U(x) for x in na)
-    ok = forms == sorted(["n_total_cells", "int(accessible_cells * n_total_cells)", "accessible_cells"])
-    ctx.judge(f, ok if len(na) == 3 else None, {"n_accessible_cells": forms},
-              "accessible_cells: None -> all cells; float -> int(fraction * total); int -> itself")
+    gv = X.guarded_values(f.node, "n_accessible_cells")
+    table = []
+    ok: bool | None = True
+    roles = set()
+    for val, conds in gv:
+        lits = [("" if pol else "not ") + X.U(t) for t, pol in conds]
+        table.append({"value": X.U(val), "under": lits})
+        pos = [t for t, pol in conds if pol]
+        if X.same_expr(val, "n_total_cells"):
+            roles.add("all")
+            if not any(X.same_expr(t, "accessible_cells is None") for t in pos):
+                ok = False
+        elif X.same_expr(val, "int(accessible_cells * n_total_cells)", "int(n_total_cells * accessible_cells)"):
+            roles.add("fraction")
+            # the proportion branch must be selected by *type*: the integer count 1 (only the start cell) is not the proportion 1.0
+            if not any(isinstance(t, ast.Call) and X.U(t.func) == "isinstance" and X.U(t.args[0]) == "accessible_cells" and "float" in X.U(t.args[1]) for t in pos):
+                ok = False
+        elif X.same_expr(val, "accessible_cells", "int(accessible_cells)"):
+            roles.add("count")
+            if any(isinstance(t, ast.Call) and X.U(t.func) == "isinstance" and "float" in X.U(t.args[1]) for t in pos):
+                ok = False
+        else:
+            ok = False
+    if ok and roles != {"all", "fraction", "count"}:
+        ok = False if gv else None
+    ctx.judge(f, ok, {"n_accessible_cells": table},
+              "accessible_cells: None -> all cells; a float (selected by type) -> int(fraction * total); an int -> itself",
+              "the integer count 1 (or the float 1.0) is read with the other meaning: more (or fewer) cells than requested become accessible and n_accessible_cells records the wrong number")
 
 
 def rule_M7(ctx: Ctx) -> None:
